@@ -162,7 +162,9 @@ func scenarioC11(r *Run) {
 		}
 		seed := uint32(g.Int("content", 1<<16))
 		var rec []byte
-		if fs.JSON {
+		if fs.JSON && g.Chance("emptyjson", 0.08) {
+			rec = []byte{} // the RawJSON framing transmits an empty record as null
+		} else if fs.JSON {
 			rec = genJSONRecord(r, l, seed)
 		} else {
 			rec = fill(l, seed, fs.Split)
